@@ -439,3 +439,132 @@ theorem within_ne_nil (p d : Path) (h : within p d = true) : p ≠ [] := by
   intro e; subst e; simp at this
 
 end Storrent.NS
+
+namespace Storrent.NS
+open Storrent Storrent.Http
+
+/-! ### more on Within, and directory links -/
+
+theorem within_decomp (p d : Path) (h : within p d = true) :
+    ∃ r, p = d ++ p.getD d.length [] :: r := by
+  obtain ⟨hl, t, ht⟩ := (within_iff p d).mp h
+  subst ht
+  cases t with
+  | nil => simp at hl
+  | cons x r =>
+    refine ⟨r, ?_⟩
+    simp [List.getD_eq_getElem?_getD]
+
+theorem within_exact (p d : Path) (h : within p d = true) (hl : ¬ p.length > d.length + 1) :
+    p = d ++ [p.getD d.length []] := by
+  obtain ⟨r, hr⟩ := within_decomp p d h
+  have : r = [] := by
+    have := congrArg List.length hr
+    simp at this
+    cases r with
+    | nil => rfl
+    | cons a b => simp at this; omega
+  rw [this] at hr; exact hr
+
+theorem within_prefix (p d : Path) (h : within p d = true) : (d ++ [p.getD d.length []]) <+: p := by
+  obtain ⟨r, hr⟩ := within_decomp p d h
+  exact ⟨r, by rw [List.append_assoc]; exact hr.symm⟩
+
+theorem WFfiles_tail {f : File} {fs : List File} (wf : WFfiles (f :: fs)) : WFfiles fs :=
+  ⟨fun g hg => wf.nonempty g (List.mem_cons_of_mem _ hg),
+   fun g hg => wf.comps g (List.mem_cons_of_mem _ hg),
+   (List.pairwise_cons.mp wf.distinct).2,
+   fun g hg k hk => wf.noPrefix g (List.mem_cons_of_mem _ hg) k (List.mem_cons_of_mem _ hk)⟩
+
+theorem splitSlash_pstring_slash : ∀ (p : Path), p ≠ [] → (∀ c ∈ p, 47 ∉ c) →
+    splitSlash (pstring p ++ [47]) = p ++ [[]] := by
+  intro p
+  induction p with
+  | nil => intro h; exact absurd rfl h
+  | cons s t ih =>
+    intro _ hc
+    cases t with
+    | nil =>
+      show splitSlash (s ++ [47]) = [s, []]
+      rw [splitSlash_append s [] (hc s List.mem_cons_self)]; rfl
+    | cons u v =>
+      have e : pstring (s :: u :: v) ++ [47] = s ++ 47 :: (pstring (u :: v) ++ [47]) := by
+        show (s ++ 47 :: pstring (u :: v)) ++ [47] = _
+        simp
+      rw [e, splitSlash_append s _ (hc s List.mem_cons_self),
+        ih (by simp) (fun c hm => hc c (List.mem_cons_of_mem _ hm))]
+      rfl
+
+theorem dropTrailingEmpty_snoc : ∀ (p : List Str), (∀ c ∈ p, c ≠ []) →
+    dropTrailingEmpty (p ++ [[]]) = p := by
+  intro p
+  induction p with
+  | nil => intro _; rfl
+  | cons s rest ih =>
+    intro h
+    have hs : s ≠ [] := h s List.mem_cons_self
+    have hr := ih (fun c hm => h c (List.mem_cons_of_mem _ hm))
+    show dropTrailingEmpty (s :: (rest ++ [[]])) = s :: rest
+    unfold dropTrailingEmpty
+    rw [hr]
+    cases rest with
+    | nil =>
+      have : s.isEmpty = false := by cases s <;> simp_all
+      simp [this]
+    | cons a b => rfl
+
+/-- a directory link: `Parse("/" + String d + "/") = d` -/
+theorem parse_dir_link (d : Path) (hne : d ≠ []) (h : ∀ c ∈ d, compOK c = true) :
+    parse (47 :: (pstring d ++ [47])) = d := by
+  have hne' : ∀ c ∈ d, c ≠ [] := fun c hm => ((compOK_iff c).mp (h c hm)).1
+  have hsl : ∀ c ∈ d, 47 ∉ c := fun c hm => ((compOK_iff c).mp (h c hm)).2
+  unfold parse
+  have hsplit : splitSlash (47 :: (pstring d ++ [47])) = [] :: splitSlash (pstring d ++ [47]) := by
+    rw [splitSlash]; simp
+  rw [hsplit, splitSlash_pstring_slash d hne hsl]
+  cases d with
+  | nil => exact absurd rfl hne
+  | cons s t =>
+    have hs : s.isEmpty = false := by
+      have := hne' s List.mem_cons_self
+      cases s <;> simp_all
+    have : ([] :: ((s :: t) ++ [[]])).dropWhile (·.isEmpty) = (s :: t) ++ [[]] := by
+      simp [List.dropWhile, hs]
+    rw [this]
+    exact dropTrailingEmpty_snoc _ hne'
+
+/-! ### ReadDirAll lists each name once -/
+
+theorem readDirLoop_dir_notin (pth : Path) : ∀ (fs : List File) (dirs : List Str) (n : Str),
+    (n, DType.dir) ∈ readDirLoop pth fs dirs → n ∉ dirs := by
+  intro fs
+  induction fs with
+  | nil => intro _ _ h; cases h
+  | cons f fs ih =>
+    intro dirs n h
+    unfold readDirLoop at h
+    by_cases hp : f.padding = true
+    · simp only [hp, if_true] at h; exact ih _ _ h
+    · simp only [hp, Bool.false_eq_true, if_false] at h
+      by_cases hw : within f.path pth = true
+      · simp only [hw, Bool.not_true, Bool.false_eq_true, if_false] at h
+        by_cases hl : f.path.length > pth.length + 1
+        · simp only [hl, if_true] at h
+          by_cases hd : dirs.contains (f.path.getD pth.length []) = true
+          · simp only [hd, if_true] at h; exact ih _ _ h
+          · simp only [hd, Bool.false_eq_true, if_false] at h
+            rcases List.mem_cons.mp h with h | h
+            · injection h with h1 _
+              rw [h1]; intro hm
+              exact hd (List.contains_iff_mem.mpr hm)
+            · intro hm
+              exact ih _ _ h (List.mem_cons_of_mem _ hm)
+        · simp only [hl, if_false] at h
+          rcases List.mem_cons.mp h with h | h
+          · injection h with _ h2; cases h2
+          · exact ih _ _ h
+      · have hw' : within f.path pth = false := by simpa using hw
+        simp only [hw', Bool.not_false, if_true] at h
+        exact ih _ _ h
+
+end Storrent.NS
